@@ -37,13 +37,13 @@ EXTREMES = [-1, 0, 1, 2 ** 31 - 1, 2 ** 31, 2 ** 32 - 1, 2 ** 32, 2 ** 63 - 1, 2
 
 
 def plan(tier, seed):
-    n, seqs = (6, 3) if tier == "quick" else (16, 8)
+    n, seqs = (6, 3) if tier == "quick" else (32, 30)
     out = [{"backend": b, "case_seed": seed * 7919 + i, "seqs": seqs} for b in ("sql", "lmdb") for i in range(n)]
     # systematic sweep of indexed tag value lengths around the LMDB key limit, for every indexed name
     for b in ("sql", "lmdb"):
         for name in ("t", "expiration", "delegation", "é"):
             out.append({"backend": b, "case_seed": seed, "sweep": name})
-        out.append({"backend": b, "case_seed": seed * 7919, "restart": 2 if tier == "quick" else 8})
+        out.append({"backend": b, "case_seed": seed * 7919, "restart": 2 if tier == "quick" else 24})
     return out
 
 
